@@ -282,6 +282,7 @@ def main(rep, tier, only):
         name = F.fn_name(fn)
         short = name.split("::")[-1]
         seq = call_seq(u, fn)
+        P0 = fn["params"][0]["name"] if fn.get("params") else "?"
         key = "%s(%s)" % (name.replace("fcppt::container::", ""), ",".join((u.ty(p["t"]) or "").split("::")[-1][:24] for p in fn.get("params", [])))
         if fn.get("kind") != "ctor":
             whys = [own1_path(u, fn, seq) for seq in path_seqs(u, fn)]
@@ -302,7 +303,7 @@ def main(rep, tier, only):
         if short == "swap" and name.startswith(RV):
             sw = [(T.show(T.norm(u, n["args"][0])), T.show(T.norm(u, n["args"][1]))) for q, n in seq if q == "std::swap"]
             flds = sorted(a.split(".")[-1] for a, b in sw)
-            ok = flds == ["cap_", "first_", "last_"] and all(a.split(".")[-1] == b.split(".")[-1] and "_other" in b for a, b in sw)
+            ok = flds == ["cap_", "first_", "last_"] and all(a.split(".")[-1] == b.split(".")[-1] and b.startswith(P0 + ".") for a, b in sw)
             (rep.ok if ok else rep.fail)("OWN-2", key, F.primary_site(fn), F.describe(fn)[:160], **({"how": "pairwise first_/last_/cap_"} if ok else {"why": "swap exchanges %s" % sw}))
         if short in ("reset_pointers", "release_internal"):
             ws = {}
@@ -313,10 +314,10 @@ def main(rep, tier, only):
             ok = all(ws.get(f_) for f_ in want)
             (rep.ok if ok else rep.fail)("OWN-2", key, F.primary_site(fn), F.describe(fn)[:160], **({"how": "all-null"} if ok else {"why": "released state is not all-null: %s" % ws}))
         if fn.get("kind") == "ctor" and fn.get("ctor_kind") == "move" and name == RV + "::impl::impl":
-            ok = any(q.endswith("::reset_pointers") and "_other" in T.show(T.norm(u, n.get("recv"))) for q, n in seq)
+            ok = any(q.endswith("::reset_pointers") and T.show(T.norm(u, n.get("recv"))) == P0 for q, n in seq)
             (rep.ok if ok else rep.fail)("OWN-2", key, F.primary_site(fn), F.describe(fn)[:160], **({"how": "source reset"} if ok else {"why": "the moved-from impl keeps its pointers (double free)"}))
         if fn.get("kind") == "ctor" and fn.get("ctor_kind") == "move" and name == BUF + "::object":
-            ok = any(q.endswith("::release_internal") and "_other" in T.show(T.norm(u, n.get("recv"))) for q, n in seq)
+            ok = any(q.endswith("::release_internal") and T.show(T.norm(u, n.get("recv"))) == P0 for q, n in seq)
             (rep.ok if ok else rep.fail)("OWN-2", key, F.primary_site(fn), F.describe(fn)[:160], **({"how": "source released"} if ok else {"why": "the moved-from buffer keeps its pointers (double free)"}))
         # ---- OWN-3
         if fn.get("kind") not in ("ctor", "dtor") and (name.startswith(RV + "::") or name.startswith(BUF + "::")) and "::impl::" not in name \
@@ -327,7 +328,7 @@ def main(rep, tier, only):
                 released = False
                 for (q, n) in pseq:
                     recv = T.show(T.norm(u, n.get("recv"))) if n.get("recv") is not None else ""
-                    if q.endswith("::deallocate") and "alloc_" not in recv and "_other" not in recv and "new_" not in recv:
+                    if q.endswith("::deallocate") and recv in ("this", "", "impl_", "this.impl_"):
                         released = True
                     over = (q.endswith("::set_pointers") and recv in ("this", "")) or (q.endswith("impl::operator=") and recv in ("impl_", "this.impl_"))
                     if over:
@@ -355,10 +356,13 @@ def main(rep, tier, only):
         if short == "insert" and name.startswith(RV) and fn.get("params"):
             last = fn["params"][-1]
             lt = u.ty(last["t"]) or ""
-            if last["ref"] == "clref" and not lt.startswith("const std::") and "iterator" not in lt and len(fn["params"]) in (2, 3) and last["name"] == "_value":
+            if last["ref"] == "clref" and not lt.startswith("const std::") and "iterator" not in lt and len(fn["params"]) in (2, 3):
                 # walk in order: storage writes then reads of _value
                 bad = None
                 wrote = None
+                # the local that holds freshly allocated storage (copies into it do not touch the vector's own elements)
+                fresh = next((v.get("name") for v in F.walk(fn.get("body"), into_lambdas=False) if v.get("k") == "var" and v.get("init") is not None
+                              and any((T.callee_qn(u, m) or "").endswith("::allocate") for m in F.walk(v["init"]) if m.get("k") == "call")), None)
                 for n in F.walk(fn.get("body"), into_lambdas=False):
                     k = n.get("k")
                     if k in ("if",):
@@ -367,7 +371,7 @@ def main(rep, tier, only):
                         q = T.callee_qn(u, n) or ""
                         if q in ("std::copy_backward", "std::copy", "std::move_backward", "std::memmove"):
                             dst = T.show(T.norm(u, n["args"][-1]))
-                            if "new_memory" not in dst:
+                            if not (fresh and fresh in dst):
                                 wrote = u.loc(n["loc"])
                     if k == "ref" and n.get("id") == last["id"] and wrote:
                         bad = (wrote, u.loc(n["loc"]))
@@ -376,7 +380,7 @@ def main(rep, tier, only):
                 # occur on the in-place branch, and a read of _value there after the write is the defect
                 if bad and _same_branch(fn, bad):
                     rep.fail("ALIAS", key, bad[1], F.describe(fn)[:160],
-                             why="_value is read at %s after the elements were shifted at %s: a value referring to an element of this vector is taken from its new position" % (bad[1], bad[0]))
+                             why="the value parameter is read at %s after the elements were shifted at %s: a value referring to an element of this vector is taken from its new position" % (bad[1], bad[0]))
                 else:
                     rep.ok("ALIAS", key, F.primary_site(fn), F.describe(fn)[:160], how="value copied / read before the shift")
         # ---- RET
@@ -389,7 +393,9 @@ def main(rep, tier, only):
                                          **({"how": "returns " + first["name"]} if ok else {"why": "returns %s; std::vector returns the position following the removed range, i.e. %s" % (got, first["name"])}))
         if short == "insert" and name.startswith(RV) and len(fn.get("params", [])) == 2 and u.ty(fn.get("ret")) != "void":
             rets = [T.show(T.norm(u, r["e"])) for r in F.walk(fn.get("body"), into_lambdas=False) if r.get("k") == "return"]
-            ok = len(rets) == 2 and any("begin()" in r and "insert_sz" in r for r in rets) and "_position" in rets
+            off = next((v.get("name") for v in F.walk(fn.get("body"), into_lambdas=False) if v.get("k") == "var" and v.get("init") is not None
+                        and T.show(T.norm(u, v["init"])).replace(" ", "") in ("(%s-this.begin())" % P0, "(%s-begin())" % P0)), None)
+            ok = len(rets) == 2 and off is not None and any("begin()" in r and off in r for r in rets) and P0 in rets
             (rep.ok if ok else rep.fail)("RET", key, F.primary_site(fn), F.describe(fn)[:160], **({"how": str(rets)} if ok else {"why": "returns %s" % rets}))
         # ---- BUF
         if name == BUF + "::release":
@@ -402,7 +408,7 @@ def main(rep, tier, only):
     for fn in db.fns("fcppt::container::buffer::to_raw_vector"):
         u = fn["_unit"]
         t = " ".join(T.show(T.norm(u, r["e"])) for r in F.walk(fn.get("body")) if r.get("k") == "return")
-        ok = "_buffer.release()" in t
+        ok = (fn["params"][0]["name"] + ".release()") in t
         (rep.ok if ok else rep.fail)("BUF", "to_raw_vector", F.primary_site(fn), F.describe(fn)[:160], **({"how": "object{release()}"} if ok else {"why": "to_raw_vector does not build the vector from release(): %s" % t}))
         break
     rep.explanation = ("Ordering / pairing rules over the members of raw_vector::object and buffer::object (explicit instantiations in "
